@@ -376,6 +376,11 @@ func c01Pipeline(c *core.Ctx) {
 	}
 	c.Set("mc_pipeline", map[string]interface{}{"distinct": r.Distinct, "generated": r.Generated, "max_depth": depth, "max_kids": 2})
 
+	// ---- thorough: the nesting invariants as an inductive invariant, discharged by Apalache for stacks of any height
+	// (up to 9 frames in the pre-state) and arbitrary switch sets: Init => IndInv, IndInv /\ Next => IndInv'
+	if !c.Quick() {
+		c.Set("apalache_inductive", pipeApalache(c))
+	}
 	// ---- own loads: fixtures x switch sets (+ model loads)
 	fx := pipeFixtures()
 	var names []string
@@ -537,4 +542,42 @@ func c01Pipeline(c *core.Ctx) {
 	c.AddTraces(int64(len(sl)))
 	c.Set("pipeline_suite", map[string]interface{}{"packages": pkgs, "loads": len(sl), "events": sev, "judged_loads": sjudged, "rejected": len(srej)})
 	c.Logf("pipeline: %d loads of the repository's tests (%d events) judged, %d rejected", len(sl), sev, len(srej))
+}
+
+// pipeApalache derives PipelineTyped.tla from Pipeline.tla (bin/mk-pipeline-typed.py) and runs the two inductive checks.
+// A timeout or a tool failure is recorded, not reported: the bounded TLC run above already decides the invariants.
+func pipeApalache(c *core.Ctx) map[string]interface{} {
+	res := map[string]interface{}{}
+	dir := filepath.Join(c.Work, "apalache")
+	_ = os.MkdirAll(dir, 0o755)
+	typed := filepath.Join(dir, "PipelineTyped.tla")
+	if out, err := exec.Command("python3", filepath.Join(core.VerifRoot, "bin", "mk-pipeline-typed.py"), filepath.Join(core.VerifRoot, "spec", "loader", "Pipeline.tla"), typed).CombinedOutput(); err != nil {
+		res["status"] = "typed module not derived: " + tailStr(string(out), 200)
+		return res
+	}
+	run := func(name string, timeout time.Duration, args ...string) string {
+		ctx, cancel := context.WithTimeout(context.Background(), timeout)
+		defer cancel()
+		cmd := exec.CommandContext(ctx, "apalache-mc", append(append([]string{"check", "--cinit=CInit"}, args...), "PipelineTyped.tla")...)
+		cmd.Dir = dir
+		start := time.Now()
+		out, err := cmd.CombinedOutput()
+		txt := string(out)
+		switch {
+		case ctx.Err() != nil:
+			return fmt.Sprintf("timeout after %.0fs", time.Since(start).Seconds())
+		case strings.Contains(txt, "EXITCODE: OK") && strings.Contains(txt, "The outcome is: NoError"):
+			return fmt.Sprintf("holds (%.0fs)", time.Since(start).Seconds())
+		case strings.Contains(txt, "The outcome is: Error") || strings.Contains(txt, "violat"):
+			c.Drift("Apalache reports that the inductive invariant of Pipeline.tla fails (" + name + "): " + tailStr(txt, 300))
+			return "fails"
+		default:
+			return fmt.Sprintf("tool error: %v %s", err, tailStr(txt, 200))
+		}
+	}
+	res["init_implies_inv"] = run("initiation", 10*time.Minute, "--init=Init", "--inv=IndInv", "--length=0")
+	res["inv_is_inductive"] = run("consecution", 40*time.Minute, "--init=IndInit", "--inv=IndInv", "--length=1")
+	res["invariant"] = "TypeInv /\\ WellNested /\\ Derived (every frame's switches are the ones derived from its parent) /\\ ExtendedFileIsPlain /\\ IncludedResolves"
+	c.Logf("apalache: initiation %v, consecution %v", res["init_implies_inv"], res["inv_is_inductive"])
+	return res
 }
